@@ -77,6 +77,15 @@ def widthOf (instr : String) : Option Nat :=
 def verifyRange (gens : Nat → List CPt × List CPt) (instr : String) (b : Bytes) : Option Bool :=
   (widthOf instr).map fun w => Range.verifyProof CSc CPt CT gens w b
 
+/-- challenge trace of the range verifier on raw instruction bytes (same decoding steps as `verifyProof`) -/
+def traceRange (instr : String) (b : Bytes) : Option (List (String × CSc)) := do
+  let w ← widthOf instr
+  if b.length ≠ 264 + proofLen w then none else
+  let ctx := b.take 264
+  let (_, bls) ← parseContext (Pt := CPt) ctx
+  let pf ← parseProof (Sc := CSc) (Pt := CPt) (b.drop 264)
+  challengeTrace (contextTranscript CT ctx) bls.sum pf
+
 def opRnew (gens : Nat → List CPt × List CPt) (emit : Bool) (a : List String) : String :=
   match a with
   | [w, comms, amounts, bls, opens, seed] =>
